@@ -31,6 +31,13 @@ ASSUMPTIONS = [
     "coq/gen/ScalFuns.v) and proved equal to the hand model (theorem scalar_model_is_source); trusted there: "
     "the MiniGo translator (fragment grammar, wrap/quot/rem semantics and the primitive table at the head of "
     "minigo.go: time.Time methods, time.Unix/Date, netip, binary.BigEndian mapped to the Scalars.v definitions)",
+    "the temporal columns' methods (ColDate/ColDate32/ColDateTime/ColDateTime64 .Append .AppendArr .Row .loc "
+    ".WithPrecision .WithLocation .Infer) are translated on every run too and proved equal to the hand model of "
+    "coq/model/ScalCols.v (theorem column_model_is_source); a column object is the value behind its pointer receiver "
+    "(no aliasing in the fragment), a slice is a list with Go's index check written out, a range loop is a structural "
+    "Fixpoint; the STRING PARSING of Infer is not translated: ColumnType.Elem, strings.Cut/Trim, strconv.ParseUint(s,10,8) "
+    "are primitives mapped to model/TypeStr.v (elem_r, cut_byte, trim_set, parse_uint8), time.LoadLocation is a parameter "
+    "(zone name -> fixed offset), an error is a boolean (message not modelled)",
 ]
 
 RULE = ("one transcript line is a batch: a sweep of consecutive/strided days or seconds in one zone at one "
@@ -43,7 +50,11 @@ RULE = ("one transcript line is a batch: a sweep of consecutive/strided days or 
         "Independently of the generated inputs, the scalar conversion functions themselves are translated from "
         "the Go source on each run (coq/gen/ScalFuns.v) and props/C20.v re-proves that each one equals the hand "
         "model (scalar_model_is_source): an edit of a whitelisted function that changes its meaning, or leaves "
-        "the translatable fragment, breaks the proof step even if no generated input hits it")
+        "the translatable fragment, breaks the proof step even if no generated input hits it. The same holds for the "
+        "methods of the temporal columns (Append / AppendArr / Row / Infer / WithPrecision): props/C20.v proves over "
+        "the translated methods that AppendArr is the fold of Append and that after ANY history of one column object "
+        "the next appended value is read back at the object's current precision and zone "
+        "(source_column_append_row), so state cached across Infer or across the values of a batch breaks the proof step")
 
 
 def translated_functions():
@@ -127,7 +138,11 @@ def explore(res, scale=1, seed=None):
     res.extra["trusted_base"] = [
         "translator/minigo*.go: the MiniGo fragment (grammar, wrap / Z.quot / Z.rem / panic-as-None semantics) and its "
         "primitive table mapping Go's time, net/netip, math and encoding/binary calls to the definitions of "
-        "coq/model/Scalars.v (time.Time methods, time.Unix, time.Date, Addr.As4/As16, AddrFrom4/16, BigEndian.Uint32/PutUint32)"]
+        "coq/model/Scalars.v (time.Time methods, time.Unix, time.Date, Addr.As4/As16, AddrFrom4/16, BigEndian.Uint32/PutUint32)",
+        "translator/minigo*.go, column extension: pointer receiver = its value, slices = lists (slice_at = nth_error, None = the "
+        "index panic), range loop = structural Fixpoint, partial calls bound by TRY before their statement; string / error "
+        "primitives of coq/model/ScalCols.v mapped to coq/model/TypeStr.v (ct_Elem = elem_r, str_Cut = cut_byte, "
+        "str_Trim = trim_set, str_ParseUint8 = parse_uint8), time.LoadLocation = the parameter tzdb, errors = booleans"]
     ok, failed = translated_functions()
     res.extra["translated_functions"] = ok
     if failed:
@@ -136,8 +151,10 @@ def explore(res, scale=1, seed=None):
         if note not in res.notes:
             res.notes.append(note)
     elif not any("translated from the Go source" in n for n in res.notes):
-        res.notes.append("%d scalar functions translated from the Go source on this run (coq/gen/ScalFuns.v) and "
-                         "proved equal to the hand model (scalar_model_is_source)" % len(ok))
+        ncol = len([n for n in ok if n.startswith("go_Col")])
+        res.notes.append("%d scalar functions and %d column methods translated from the Go source on this run "
+                         "(coq/gen/ScalFuns.v) and proved equal to the hand model (scalar_model_is_source, "
+                         "column_model_is_source)" % (len(ok) - ncol, ncol))
 
 
 def replay(res, path):
